@@ -133,6 +133,22 @@ def me(x):
     return "%d:%d" % (n, k - e)
 
 
+def is_negzero(s):
+    """'-0:e' / '-0' = the double -0.0 (sign bit set): the harness feeds that bit pattern to the library; the exact
+    model, fr() and the OCaml driver read it as the rational 0"""
+    return s.startswith("-") and int(s.split(":")[0]) == 0
+
+
+def fl(s):
+    """'m:e' -> the double the harness feeds to the library, sign of zero included"""
+    return -0.0 if is_negzero(s) else float(fr(s))
+
+
+def mez(x):
+    """me() for a double, keeping the sign bit of a zero"""
+    return "-0:0" if (x == 0 and math.copysign(1.0, x) < 0) else me(x)
+
+
 def hexq(s):
     """'[-]hex/hex' -> Fraction"""
     a, b = s.split("/")
@@ -384,7 +400,9 @@ def shift_me(sv, k):
         m, e = sv.split(":")
     else:
         m, e = sv, "0"
-    return "0:0" if int(m) == 0 else "%s:%d" % (m, int(e) + k)
+    if int(m) == 0:
+        return "-0:0" if m.startswith("-") else "0:0"
+    return "%s:%d" % (m, int(e) + k)
 
 
 SCALES = [-300, -200, -100, -60, -30, 30, 60, 100, 200, 300]
@@ -451,6 +469,119 @@ def gen_scaled_cases(rng, count, nmixed):
     return cases
 
 
+ROOTS_ZERO = [r for r in ROOTS + ROOTS_LONG if root_box(r)[0] <= 0 <= root_box(r)[1] or root_box(r)[2] <= 0 <= root_box(r)[3]]
+
+
+def neg_zero_tokens(c):
+    """number of coordinates (points and root centre) of the case that are the double -0.0"""
+    return sum(1 for pq in c["pts"] for v in pq if is_negzero(v)) + sum(1 for v in c["root"][:2] if is_negzero(v))
+
+
+def has_signed_zero_twins(c):
+    """two points of the case that are numerically equal and differ in the sign bit of a zero coordinate"""
+    seen = {}
+    for a, b in c["pts"]:
+        key = (fr(a), fr(b))
+        bits = (is_negzero(a), is_negzero(b))
+        if key in seen and seen[key] != bits:
+            return True
+        seen.setdefault(key, bits)
+    return False
+
+
+def decorate_signed_zeros(rng, cases, prob=0.5):
+    """SIGNED ZEROS.  +0.0 and -0.0 are one number (the property, the exact model and every `==` / `<` of the C++
+    read them as 0) but two bit patterns.  With probability `prob` per case every zero coordinate of a point gets an
+    independent random sign bit, and a zero coordinate of the root centre becomes -0.0 with probability 0.3: zeros
+    of coincident points, of points on a split line / a box edge / the root centre then come in both encodings.
+    The pts lists are rebuilt (twin cases share them)."""
+    for c in cases:
+        if rng.random() >= prob:
+            continue
+        c["pts"] = [[("-0:0" if (fr(v) == 0 and rng.random() < 0.5) else v) for v in pq] for pq in c["pts"]]
+        c["root"] = [("-0:0" if (j < 2 and fr(v) == 0 and rng.random() < 0.3) else v) for j, v in enumerate(c["root"])]
+    return cases
+
+
+def gen_signed_zero_cases(rng, count):
+    """family `signed_zero`: coincident points with a zero coordinate whose copies carry different sign bits (0.0 * -1.0,
+    a negated or mirrored zero), on an axis that is a split line of the root (roots centred at 0), a box edge (root
+    [0,1]^2) or generic (offset roots); mirrored data sets x -> -x computed as doubles (so that the mirror image of
+    0.0 is -0.0); zeros of one sign only (control).  Modes E / F.  Numerically these are exact duplicates: the tree
+    must absorb them into one leaf (count[0] = copies), whatever the bit patterns."""
+    cases = []
+    for n_ in range(count):
+        root = rng.choice(ROOTS_ZERO)
+        x0, x1, y0, y1, x, y, hw, hh = root_box(root)
+        variant = rng.choice(["twins", "twins", "twins", "mirror", "one_sign"])
+        pts, neg = [], []
+        if variant == "mirror" and x == 0 and y == 0:
+            base = gen_generic(rng, root, rng.randint(1, 4)) + [(Fraction(0), rnd_grid(rng, y0, y1, 3))]
+            if rng.random() < 0.5:
+                base.append((rnd_grid(rng, x0, x1, 3), Fraction(0)))
+            if rng.random() < 0.5:
+                base.append((Fraction(0), Fraction(0)))
+            ax = rng.choice([0, 1, 2])             # mirror in x, in y, through the origin
+            for q in base:
+                pts.append(q)
+                neg.append((False, False))
+                m = (-q[0] if ax != 1 else q[0], -q[1] if ax != 0 else q[1])
+                pts.append(m)
+                # the negation of the double 0.0 is -0.0
+                neg.append((ax != 1 and q[0] == 0, ax != 0 and q[1] == 0))
+        else:
+            anchors = []
+            for _ in range(rng.randint(1, 3)):
+                r = rng.random()
+                if r < 0.4 and x0 <= 0 <= x1:
+                    anchors.append((Fraction(0), rng.choice([rnd_grid(rng, y0, y1, rng.choice([1, 3, 10])), y, y0, y1])))
+                elif r < 0.8 and y0 <= 0 <= y1:
+                    anchors.append((rng.choice([rnd_grid(rng, x0, x1, rng.choice([1, 3, 10])), x, x0, x1]), Fraction(0)))
+                elif x0 <= 0 <= x1 and y0 <= 0 <= y1:
+                    anchors.append((Fraction(0), Fraction(0)))
+            if not anchors:
+                anchors.append((Fraction(0), y) if x0 <= 0 <= x1 else (x, Fraction(0)))
+            for q in anchors:
+                k = rng.randint(2, 4)
+                if variant == "one_sign":
+                    s = rng.random() < 0.7
+                    bits = [(s, s)] * k
+                else:
+                    bits = [(rng.random() < 0.5, rng.random() < 0.5) for _ in range(k)]
+                    zc = [dd for dd in range(2) if q[dd] == 0]
+                    if all(b[zc[0]] == bits[0][zc[0]] for b in bits):
+                        # at least two copies differ in the sign bit of a zero coordinate
+                        j = rng.randrange(1, k)
+                        bits[j] = tuple((not v) if dd == zc[0] else v for dd, v in enumerate(bits[j]))
+                for b in bits:
+                    pts.append(q)
+                    neg.append(b)
+            fill = rng.choice([gen_generic, gen_edges, gen_clustered])(rng, root, rng.randint(0, 6))
+            for q in fill:
+                pts.append(q)
+                neg.append((rng.random() < 0.5, rng.random() < 0.5))
+        perm = list(range(len(pts)))
+        rng.shuffle(perm)
+        pts, neg = [pts[i] for i in perm], [neg[i] for i in perm]
+        order = list(range(len(pts)))
+        mode = "F" if rng.random() < 0.25 else "E"
+        if mode == "E":
+            rng.shuffle(order)
+        c = mk_case("signed_zero", root, pts, order, mode=mode, rng=rng, thetas=["0:0", "1:-60", "1:-3", "1:-1", "1:0"])
+        c["pts"] = [[("-0:0" if (q[dd] == 0 and b[dd]) else v) for dd, v in enumerate(pq)]
+                    for pq, q, b in zip(c["pts"], pts, neg)]
+        if rng.random() < 0.3:
+            c["root"] = [("-0:0" if (j < 2 and fr(v) == 0) else v) for j, v in enumerate(c["root"])]
+        c["variant"] = variant
+        cases.append(c)
+        if mode == "E" and rng.random() < 0.3:
+            # the same points, all zeros +0.0, another order: the two REAL trees must agree (order_independent_tree)
+            twin = list(order)
+            rng.shuffle(twin)
+            cases.append(dict(c, order=twin, pts=[[("0:0" if fr(v) == 0 else v) for v in pq] for pq in c["pts"]]))
+    return cases
+
+
 def check_scale_twins(ctx, cases, impls, stats):
     """a `scale` case directly follows its unscaled twin: the REAL trees must be the same up to the factor 2^k
     (shape, size, index, count, cum_size equal; boxes and centres of mass scaled exactly; insert results equal)"""
@@ -499,8 +630,23 @@ def gen_tol_cases(rng, count):
                 pts[j] = tuple(q)
             if rng.random() < 0.3:
                 pts += [pts[0]] * rng.randint(1, 3)
+            if rng.random() < 0.35:
+                # coincident samples with a zero coordinate in both encodings (+0.0 / -0.0), e.g. a mirrored map
+                for _t in range(rng.randint(1, 2)):
+                    ax = rng.choice([0, 1])
+                    q = [rng.gauss(0, 1) * sc + off, rng.gauss(0, 1) * sc + off]
+                    if rng.random() < 0.2:
+                        q = [0.0, 0.0]
+                    q[ax] = 0.0
+                    for _k in range(rng.randint(2, 3)):
+                        w = [(-0.0 if (v == 0 and rng.random() < 0.5) else v) for v in q]
+                        pts.insert(rng.randrange(len(pts) + 1), tuple(w))
+                    w = list(q)
+                    w[ax] = -0.0
+                    pts.insert(rng.randrange(len(pts) + 1), tuple(q))
+                    pts.insert(rng.randrange(len(pts) + 1), tuple(w))
             cases.append({"kind": "tol_auto", "mode": "A", "fm": True, "root": ["0:0"] * 4,
-                          "pts": [[me(a), me(b)] for a, b in pts], "order": list(range(len(pts))),
+                          "pts": [[mez(a), mez(b)] for a, b in pts], "order": list(range(len(pts))),
                           "thetas": ["0:0", "1:-1"], "queries": list(range(min(len(pts), 6))), "short": False})
         else:
             x, y = rng.uniform(-1, 1), rng.uniform(-1, 1)
@@ -520,10 +666,20 @@ def gen_tol_cases(rng, count):
                 px = min(max(px, x - hw), x + hw)
                 py = min(max(py, y - hh), y + hh)
                 pts.append((px, py))
+            if rng.random() < 0.3:
+                # signed-zero twins on an axis that crosses the box
+                q = [rng.uniform(x - hw, x + hw), rng.uniform(y - hh, y + hh)]
+                axes = [dd for dd, (c_, h_) in enumerate([(x, hw), (y, hh)]) if c_ - h_ < 0 < c_ + h_]
+                if axes:
+                    ax = rng.choice(axes)
+                    q[ax] = 0.0
+                    w = list(q)
+                    w[ax] = -0.0
+                    pts += [tuple(q), tuple(w)] + ([tuple(w)] if rng.random() < 0.3 else [])
             order = list(range(len(pts)))
             rng.shuffle(order)
             cases.append({"kind": "tol_ulp", "mode": "E", "fm": True, "root": [me(x), me(y), me(hw), me(hh)],
-                          "pts": [[me(a), me(b)] for a, b in pts], "order": order,
+                          "pts": [[mez(a), mez(b)] for a, b in pts], "order": order,
                           "thetas": ["0:0", "1:-1"], "queries": list(range(min(len(pts), 6))), "short": False})
     return cases
 
@@ -627,7 +783,7 @@ class Bad(Exception):
 
 def parse_impl(lines):
     """-> dict(R, cells, ok, ai, depth, forces) ; raises Bad"""
-    d = {"R": None, "cells": [], "ok": None, "ai": None, "depth": None, "F": {}, "T": None, "P": []}
+    d = {"R": None, "cells": [], "ok": None, "ai": None, "depth": None, "F": {}, "T": None, "P": [], "Z": None}
     try:
         for line in lines:
             w = line.split()
@@ -637,6 +793,8 @@ def parse_impl(lines):
                 d["R"] = [int(x) for x in w[1:]]
             elif w[0] == "T":
                 d["T"] = int(w[1])
+            elif w[0] == "Z":
+                d["Z"] = int(w[1])
             elif w[0] == "c":
                 if w[1].startswith("<"):
                     raise Bad("tree dump: " + w[1])
@@ -914,11 +1072,11 @@ def crack_explains(c, d):
     a specification failure attributed to the known finding F25."""
     import sys
     sys.setrecursionlimit(max(sys.getrecursionlimit(), 20000))
-    P = [(float(fr(a)), float(fr(b))) for a, b in c["pts"]]
+    P = [(fl(a), fl(b)) for a, b in c["pts"]]
     cells = d["cells"]
     x, y, hw, hh = cells[0][1:5]
     if c["mode"] == "E":
-        want_root = tuple(float(fr(v)) for v in c["root"])
+        want_root = tuple(fl(v) for v in c["root"])
         if (x, y, hw, hh) != want_root:
             return False
     t = FloatTree(P, x, y, hw, hh)
@@ -972,7 +1130,7 @@ def float_model_batch(ctx, cases, impls, stats):
         c, d = cases[k], impls[k]
         cells = d["cells"]
         kids = tree_children(cells)
-        P = [(float(fr(a)), float(fr(b))) for a, b in c["pts"]]
+        P = [(fl(a), fl(b)) for a, b in c["pts"]]
         src.append("Definition cells%d : list fcell := [%s].\n" % (k, ";\n ".join(fm_cell(x) for x in cells)))
         src.append("Definition pts%d : list fpt := [%s].\n" % (k, "; ".join("(%s, %s)" % (fhex(a), fhex(b)) for a, b in P)))
         nodes = []
@@ -1052,7 +1210,7 @@ def check_float_model(ctx, c, d, fm, stats):
         if not fm["cracks"]:
             return "the binary64 model finds no crack in the real dump of corpus case %s" % c["corpus_name"]
     # Python's own crack classification (doubles) must be the model's
-    P = [(float(fr(a)), float(fr(b))) for a, b in c["pts"]]
+    P = [(fl(a), fl(b)) for a, b in c["pts"]]
     kids = tree_children(cells)
     mine = []
     nn = 0
@@ -1342,6 +1500,15 @@ def evaluate(ctx, exe, mexe, cases, stats, with_model=True, record=True):
                 d["ins"] = list(c["order"])
             tree_children(d["cells"])
             impls[k] = d
+            nz = neg_zero_tokens(c)
+            stats["neg_zero_coords_fed"] += nz
+            if nz:
+                stats["cases_with_neg_zero"] += 1
+            if has_signed_zero_twins(c):
+                stats["cases_signed_zero_twins"] += 1
+            if d["Z"] != nz and with_model:
+                # printed by the harness before the library is called: the sign bits did not reach the library
+                ctx.mismatch(c, "harness/c18.cpp fed %s negative zeros to the library, the case has %d" % (d["Z"], nz))
         except Bad as ex:
             report("output of the real quadtree is not a quadtree: %s" % ex)
             impls[k] = None
@@ -1449,7 +1616,7 @@ def check_float_replay(ctx, c, d, stats):
     Coq model, which ties the replay to the model."""
     import sys
     sys.setrecursionlimit(max(sys.getrecursionlimit(), 20000))
-    P = [(float(fr(a)), float(fr(b))) for a, b in c["pts"]]
+    P = [(fl(a), fl(b)) for a, b in c["pts"]]
     cells = d["cells"]
     x, y, hw, hh = cells[0][1:5]
     t = FloatTree(P, x, y, hw, hh)
@@ -1522,8 +1689,17 @@ def gen_grad_cases(rng, count):
         else:
             pts = [(rng.gauss(0, 1), rng.gauss(0, 1)) for _ in range(max(1, n // 2))]
             pts = (pts + pts)[:n] if n >= 2 else pts          # coincident pairs
+            if rng.random() < 0.5 and n >= 3:
+                # ... one of them on an axis, the zero in both encodings
+                ax = rng.choice([0, 1])
+                q = list(pts[0])
+                q[ax] = 0.0
+                w = list(q)
+                w[ax] = -0.0
+                pts[0], pts[len(pts) // 2] = tuple(q), tuple(w)
+                pts[-1] = tuple(w) if rng.random() < 0.5 else pts[-1]
         theta = rng.choice(["0:0", "0:0", "1:-6", "1:-3", "1:-1", "1:0"])
-        cases.append({"kind": "grad", "mode": "G", "root": ["0:0"] * 4, "pts": [[me(a), me(b)] for a, b in pts],
+        cases.append({"kind": "grad", "mode": "G", "root": ["0:0"] * 4, "pts": [[mez(a), mez(b)] for a, b in pts],
                       "order": list(range(len(pts))), "thetas": [theta], "queries": [], "deg": rng.choice([0, 0, 1, 2]),
                       "short": False})
     return cases
@@ -1566,7 +1742,7 @@ def evaluate_grad(ctx, exe, cases, stats):
         lines = results[k]
         if not lines:
             continue
-        P = [(float(fr(a)), float(fr(b))) for a, b in c["pts"]]
+        P = [(fl(a), fl(b)) for a, b in c["pts"]]
         n, deg, th = len(P), c["deg"], float(fr(c["thetas"][0]))
         try:
             dC = {int(w[1]): (hexf(w[2]), hexf(w[3])) for w in (l.split() for l in lines) if w[0] == "D"}
@@ -1670,7 +1846,8 @@ def check_order_independence(cases, impls, fails, ptsF, stats, mk_report):
             continue
         if len(set(impls[k]["R"])) > 1 or (impls[k]["R"] and impls[k]["R"][0] != 1):
             continue
-        key = (tuple(c["root"]), tuple(map(tuple, c["pts"])), tuple(sorted(c["order"])))
+        # keyed by the NUMBERS: cases that differ only in the sign bit of a zero coordinate belong together
+        key = (tuple(fr(v) for v in c["root"]), tuple(ptsF[k]), tuple(sorted(c["order"])))
         groups.setdefault(key, []).append(k)
     for key, ks in groups.items():
         if len(ks) < 2:
@@ -1719,7 +1896,7 @@ def check_auto_roots(ctx, mexe, cases, impls, stats):
         raise vlib.BuildError("model driver (auto_root) failed: rc=%s %s" % (r.rc, r.err[-500:]))
     for j, k in enumerate(ks):
         c, d = cases[k], impls[k]
-        P = [(float(fr(a)), float(fr(b))) for a, b in c["pts"]]
+        P = [(fl(a), fl(b)) for a, b in c["pts"]]
         n = len(P)
         want = auto_root_float(P)
         got = tuple(d["cells"][0][1:5])
@@ -1852,7 +2029,8 @@ def new_stats():
             "cases_point_on_root_split_line": 0, "order_groups": 0, "order_pairs": 0, "float_replays": 0, "float_replay_forces": 0,
             "float_replay_near_tie": 0, "float_replay_ill_conditioned": 0, "grad_cases": 0, "grad_replayed": 0, "grad_exact": 0, "grad_bound": 0, "cell_count_checks": 0,
             "float_model_cases": 0, "float_model_cells": 0, "float_model_contains_evals": 0, "float_model_cracks": 0,
-            "float_model_witness_checked": 0, "internal_cells_in_exact_class": 0, "internal_cells_outside_exact_class": 0, "float_model_coqc_seconds": 0.0, "scaled_twins": 0, "scaled_max_depth": 0}
+            "float_model_witness_checked": 0, "internal_cells_in_exact_class": 0, "internal_cells_outside_exact_class": 0, "float_model_coqc_seconds": 0.0, "scaled_twins": 0, "scaled_max_depth": 0,
+            "neg_zero_coords_fed": 0, "cases_with_neg_zero": 0, "cases_signed_zero_twins": 0}
 
 
 def run_batch(ctx, exe, mexe, cases, stats, with_model=True):
@@ -1880,9 +2058,9 @@ def run_batch(ctx, exe, mexe, cases, stats, with_model=True):
 def budgets(ctx):
     if ctx.quick:
         return ({"generic": 80, "clustered": 60, "collinear": 60, "coincident": 80, "edges": 80, "ranges": 50,
-                 "outside": 20, "tie": 50, "scale": 36, "scale_mixed": 14, "elongated": 30}, [4, 5], 40)
+                 "outside": 20, "tie": 50, "scale": 36, "scale_mixed": 14, "elongated": 30, "signed_zero": 40}, [4, 5], 40)
     return ({"generic": 400, "clustered": 300, "collinear": 300, "coincident": 400, "edges": 400, "ranges": 300,
-             "outside": 80, "tie": 250, "scale": 160, "scale_mixed": 50, "elongated": 150}, [3, 4, 5, 6], 300)
+             "outside": 80, "tie": 250, "scale": 160, "scale_mixed": 50, "elongated": 150, "signed_zero": 200}, [3, 4, 5, 6], 300)
 
 
 def corpus_cases(ctx):
@@ -1918,6 +2096,9 @@ def run(ctx):
                        (1, 2, 3, 4, 5, 7, 9, 12, 16, 24, 40, 40, 64))
     cases += gen_perm_cases(rng, perm_sizes)
     cases += gen_scaled_cases(rng, bud["scale"], bud["scale_mixed"])
+    # zeros in both encodings (+0.0 / -0.0) in half of the exact-stream cases, and the family aimed at them
+    decorate_signed_zeros(rng, cases[ncorpus:])
+    cases += gen_signed_zero_cases(rng, bud["signed_zero"])
     cases += gen_tol_cases(rng, ntol)
     # the binary64 model (Coq primitive floats) runs on the real dump of: corpus, every tolerance-stream case, every
     # scaled case, every 8th other case
@@ -1938,7 +2119,8 @@ def run(ctx):
         t_search = ctx.elapsed()         # the limit below is on the search itself, not on coq / build / lock waiting before it
         for rnd in range(6):
             b2 = {k: v * 2 for k, v in budgets(ctx)[0].items()}
-            more = gen_cases(rng, b2) + gen_scaled_cases(rng, 24, 24) + gen_tol_cases(rng, 40)
+            more = decorate_signed_zeros(rng, gen_cases(rng, b2) + gen_scaled_cases(rng, 24, 24)) \
+                + gen_signed_zero_cases(rng, 40) + gen_tol_cases(rng, 40)
             searched += run_batch(ctx, exe, mexe, more, stats, with_model=False)
             searched += evaluate_grad(ctx, exe, gen_grad_cases(rng, 100), stats)
             if ctx.has_violation() or ctx.elapsed() - t_search > (150 if ctx.quick else 900):
